@@ -590,7 +590,9 @@ FINDING_PREDICATES.update({
 })
 
 # the sched domain serves seven properties: each compares acceptance + its own verdict(s)
-for _pid, _keys in {"C01": ["C01"], "C02": ["C02"], "C03": ["C03", "C03s"], "C06": ["C06"], "C07": ["C07"], "C13": ["C13"], "C14": ["C14"]}.items():
+# (C02v: the value monitor — callee sees what was passed, deferred call sees the exit code; C06k: the key discipline monitor)
+for _pid, _keys in {"C01": ["C01"], "C02": ["C02", "C02v"], "C03": ["C03", "C03s"], "C06": ["C06", "C06k"], "C07": ["C07"], "C13": ["C13"],
+                    "C14": ["C14", "C02v"]}.items():
     for _d in PROPS[_pid]["domains"]:
         if _d["name"] == "sched":
             _d["verdict_keys"] = _keys
